@@ -492,7 +492,8 @@ def oracles_sync(op, S0, S1, out, hist, stats):
                         # explicit default of the truth must be carried (value and type)
                         if not (type(a) is type(b) and a == b):
                             dkind = "%s%s->%s" % (type(b).__name__, "-empty" if b == "" and isinstance(b, str) else "", type(a).__name__)
-                            v.append(viol("C09", "A2-default", op, "%s.%s default is %r, truth says %r" % (name, nme, a, b), dkind=dkind, **common))
+                            in_quotes = True if isinstance(b, str) and len(b) >= 2 and b[0] == b[-1] and b[0] in "'\"" else None
+                            v.append(viol("C09", "A2-default", op, "%s.%s default is %r, truth says %r" % (name, nme, a, b), dkind=dkind, truth_default_in_quotes=in_quotes, **common))
                             break
             # prose clause, judged independently of doctrans' own docstring parsers (A3 below is differential and cannot see
             # prose that the truth's *parser* already loses): what the truth says about a parameter, the target says too
